@@ -34,3 +34,69 @@ PROPS["C05"] = dict(
     assumptions=["no I/O errors or short writes", "fewer than 2^64 appends"],
     allowed_axioms=[],
 )
+
+PROPS["C01"] = dict(
+    corr_module="Corr.C01",
+    streams={"hist": dict(runner="C01_run", in_t="C01_in", out_t="C01_out", shard=4, imports=["Model.Store"])},
+    n_quick=28, n_thorough=600,
+    harness_timeout=3000,
+    rule="adaptive histories of 5-70 ops (put binary/text/chunked, update with/without payload, delete, commit, reopen, exit-without-commit + reopen) on a real memory; "
+         "payload sizes aimed with live WAL counters to end within +-60 bytes of the log region end, to cross the 75% auto-checkpoint, and to exceed the region (growth); "
+         "non-trivial = the history crossed an automatic checkpoint, a log growth, or ended a record within 48 bytes of the region end; distinct by digest of the op list",
+    level_text="placeholder",
+    level_note="placeholder",
+    trusted_base=[],
+    assumptions=[],
+    allowed_axioms=[],
+)
+
+PROPS["C35"] = dict(
+    corr_module="Corr.C35",
+    streams={
+        "slices": dict(runner="C35_run", in_t="C35_in", out_t="C35_out", shard=150),
+        "find": dict(runner="C35_find_run", in_t="C35_find_in", out_t="(list (N * N))", shard=200),
+    },
+    level_text="Unbounded theorems over a line-by-line model of lex::compute_snippet_slices and its helpers (text = any byte list with std's is_char_boundary and str-slicing semantics, occurrences = any list of N pairs, any window, any maximum): with NO hypothesis every returned slice is an in-bounds range on char boundaries whose slicing cannot panic, slices are in order and more than 20 bytes apart, at most max(max,1) of them, all non-empty when window >= 1, and the only panic is end + window/2 overflowing usize; the full property holds under the guard (text empty, or max >= 1, window >= 1, no end + window/2 >= 2^64), the guard equals the complement of three known-finding classes, each conjunct is shown necessary by a witness, and all in-tree call sites (window >= 80, max >= 1, ends < 2^63) are proved to satisfy it. Model tied to the code by differential runs through the verif hook.",
+    level_note="Property as stated (arbitrary arguments) is REFUTED in three classes, recorded as known findings (max-zero, window-zero, end-overflow); proved outside them. Trusted: Coq kernel + vm_compute; hand-written model of src/lex.rs (tied by correspondence on ~3000 calls/run quick, exact slice lists or Panic); char_indices modelled as the lead-byte positions of the UTF-8 bytes (equal to std's decoder on well-formed UTF-8, lemma decode_indices_eq); debug-profile overflow semantics; harness.",
+    n_quick=2400, n_thorough=30000,
+    rule="texts of 0-400 bytes (prose / no sentence stops / dense stops and newlines / mostly 2-4-byte chars / 0-5 bytes / whitespace runs after stops); "
+         "occurrences: none, realistic (str::find matches of 1-3 needles, sorted+dedup or sorted by start), call-site arguments (window 80..200, max 1..10), "
+         "malformed (unsorted, duplicates, start>end, start=end, mid-character, beyond the text, 2^63, usize::MAX), gap stream (stop-free text, raw windows 18..22 bytes apart), "
+         "exact overflow edge (end + window/2 = 2^64-1 / 2^64); windows {0,1,2,3,7,20,41,80,160,400,10^6,usize::MAX-1,usize::MAX, random<60}; maxima {0,1,2,3,5,100,usize::MAX}; "
+         "every call under catch_unwind; compared: Panic or the exact slice list, the Coq property oracle vs the harness oracle, the known-class predicate; "
+         "second stream: the str::find occurrence loop vs the model's; third stream (implementation oracle only): LexIndexBuilder -> LexIndex::search on 1-3 generated documents (public call site build_snippets(.., 160, 3) and its &content[start..end]): no panic, 1..3 non-empty snippets per hit, each a slice of the document; non-trivial = text and occurrence list both non-empty; distinct by BLAKE3 of the input term",
+    trusted_base=["str::char_indices is modelled as the (offset, lead byte) pairs of non-continuation bytes; equal to the std decoder on well-formed UTF-8 (Proofs/SnippetProofs.v decode_indices_eq); str validity is a std invariant",
+                  "usize is 64 bits; debug profile (overflow checks on) for `end + window / 2`; in release the add wraps instead of panicking",
+                  "collect_token_occurrences has no hook: its find loop is re-implemented in the harness with str::find and compared with the model's (stream find)"],
+    assumptions=["guard for the full property: text empty, or max_snippets >= 1 and window >= 1 and every occurrence end + window/2 < 2^64 (each conjunct proved necessary)",
+                 "content.len() <= isize::MAX so `last.1 + 20` cannot overflow (every stored end is proved <= len)"],
+    allowed_axioms=[],
+)
+
+PROPS["C39"] = dict(
+    corr_module="Corr.C39",
+    streams={
+        "filter": dict(runner="C39_filter_run", in_t="C39_filter_in", out_t="C39_filter_out", shard=150),
+        "contains": dict(runner="C39_contains_run", in_t="(bytes * N)", out_t="(outcome bool)", shard=300),
+        "sketch": dict(runner="C39_sketch_run", in_t="C39_sketch_in", out_t="C39_sketch_out", shard=40),
+        "idf": dict(runner="C39_idf_run", in_t="C39_idf_in", out_t="C39_sketch_out", shard=40),
+        "track": dict(runner="C39_track_run", in_t="C39_track_in", out_t="C39_track_out", shard=60),
+        "read": dict(runner="C39_read_run", in_t="C39_read_in", out_t="(outcome (N * list entry_t))", shard=100),
+    },
+    level_text="Unbounded theorems over the model of src/types/sketch_track.rs. Filter: for every hash list, every filter size but 0 and every hash of the list, build_term_filter then term_filter_maybe_contains answers true (bit level: set then test at the same index, OR never clears a bit), lifted to generate_sketch for any tokenizer, any token hash and any text (no panic, every token of the text reported present). Track: read(write t) is computed exactly for every track (entries renumbered 0.. and forced into the on-disk layout); the round trip as stated is refuted (Small entry for frame 3 comes back as frame 0, flags 23 -> 7, weight sum lost) and proved for every track outside known_class, which is shown to be exact (round-trips iff outside).",
+    level_note="Trusted: Coq kernel + vm_compute; hand-written model tied by differential runs (filter bytes, weights, simhash, top terms, written bytes, read-back tracks, error kinds on damaged bytes); tokenizer (NFKC, lower-casing, is_alphanumeric), BLAKE3 hash_token and the f32 weight formula are Section variables (the theorems hold for every choice); debug-profile overflow semantics. The track round trip is a known finding (F-C39-1..3), not repaired: the format stores no frame ids, Large is stored as Medium, Small has no room for flags/weight/length.",
+    n_quick=420, n_thorough=6000,
+    rule="filter: 0-40 hashes (random, 0, MAX, <2^16, <2^32, lanes next to multiples of the bit count, single bits) into filters of 0,1-7,16,32,64,1-100 bytes, probed with every added hash plus one-bit neighbours and fresh hashes; "
+         "sketch: texts of 0-2570 tokens (edges at 49-51 and 2535-2570) over per-text vocabularies incl. Unicode (NFKC ligatures, full-width, combining marks, CJK, dotted I), one-character words and skewed repeats, all three variants; "
+         "idf: the same texts with an idf map whose values make the f32 weight formula exact (small dyadic fractions, values below the 0.1 clamp, sums beyond the u16 cap, weights near and beyond the u32 sum overflow); "
+         "track: 0-19 entries made by generate_sketch / hand-built in and out of the on-disk shape, ids dense, re-inserted, offset, permuted, sparse, duplicate, with gaps, written after 0-39 noise bytes and followed by 0-39; "
+         "read: written tracks with damaged magic, entry size, count (incl. overflowing), version, truncation, wrong offset/length, random bytes; "
+         "non-trivial = filter non-empty with hashes / text has tokens / track has entries / read reached a verdict on a header; distinct by BLAKE3 of the input",
+    trusted_base=["tokenizer, hash_token (BLAKE3) and the f32 weight formula are Section variables in the theorems; in the correspondence run the tokens are the real tokenizer's output and hash_token is the finite table of real hashes of those tokens",
+                  "integer overflow modelled as in the debug profile (panic); the release profile wraps"],
+    assumptions=["filter size 0 is excluded (the code divides by zero; the variants use 16, 32, 64)",
+                 "weights are i32 values of at most 715827882 so that six of them fit the u32 sum (idf_map = None gives 100..300)",
+                 "track fields fit their Rust types and 24 + 96 * entries < 2^64 (track_wf)",
+                 "track round trip: known finding outside which the theorem holds (known_class = ids not 0..n-1 in insertion order, or filter/top-term vectors not of the on-disk size, or Small entry with weight sum / flags <> 7 / length hint)"],
+    allowed_axioms=[],
+)
